@@ -662,6 +662,11 @@ def _run_job(d, cases):
     first = run_program(os.path.join(d, "batch"), cases)
     out = []
     budget = SINGLES
+    first_bad = {}
+    for k in sorted(first["verdicts"]):
+        for opt, v in first["verdicts"][k].items():
+            if v[0] != "ok":
+                first_bad.setdefault(opt, k)
     for k, cs in enumerate(cases):
         o = {"case": cs, "evals": 0}
         comp = first["compile"]
@@ -717,7 +722,8 @@ def _run_job(d, cases):
                 o["evals"] = len(sv)
             elif sv:
                 # alone it is fine: the failure needs the neighbours of the batch; report the batch as it is
-                bvs = [(opt, v) for opt, v in sorted(vs.items()) if v[0] != "ok"]
+                # (a case that printed nothing because an EARLIER case of the batch killed the process is not to blame)
+                bvs = [(opt, v) for opt, v in sorted(vs.items()) if v[0] == "mismatch" or (v[0] == "crash" and first_bad.get(opt) == k)]
                 if bvs and comp is not None and comp.accepted:
                     opt, v = bvs[0]
                     detail = v[1] if v[0] == "crash" else f"{v[1][0]}: expected `{v[1][2]}`, observed `{v[1][3]}`"
@@ -859,15 +865,35 @@ def replay(path):
         return run("quick", 0)
     c = R.compile_capy(work, {"main.capy": files["main.capy"]})
     print(f"  capy: accepted={c.accepted} internal_error={c.internal_error}\n{c.brief()[-600:]}")
-    rc = 1
+    if c.internal_error:
+        C.clean_work("C19")
+        print(f"VIOLATION property=C19 replay={path}")
+        return 1
+    failing = False
+    verdicts = 0
     if c.accepted and "c19.c" in files:
+        exp = None
+        if wit.get("case") and "slot" in wit:
+            k = int(wit["slot"])
+            exp = [(i_d + k * 1000, val, label) for i_d, val, label in build_program([_case_from_json(wit["case"])])[2][0]]
         open(os.path.join(work, "c19.c"), "w").write(files["c19.c"])
         for opt in OPTS:
             g = C.run_proc(["gcc", opt, "-std=gnu11", "-w", "-c", "c19.c", "-o", f"c19{opt}.o"], cwd=work, cpu_s=60, mem_gb=8)
             if g.rc != 0:
                 continue
             r = R.link_and_run(work, c.obj, extra_objs=[os.path.join(work, f"c19{opt}.o")], exe_name="prog" + opt)
-            print(f"--- {opt}: rc={r.rc} sig={r.sig}\n{r.out[-1500:]}")
+            if r.link_failed or r.timed_out:
+                continue
+            verdicts += 1
+            bad = judge(exp, parse_out(r.out)) if exp is not None else None
+            print(f"--- {opt}: rc={r.rc} sig={r.sig} " + (f"{bad[0]}: expected `{bad[2]}`, observed `{bad[3]}`" if bad else "no mismatch for the recorded case"))
+            failing = failing or bad is not None or bool(r.sig)
     C.clean_work("C19")
-    print(f"VIOLATION property=C19 replay={path}")
-    return rc
+    if failing:
+        print(f"VIOLATION property=C19 replay={path}")
+        return 1
+    if not verdicts:
+        print("INCONCLUSIVE property=C19: the witness could not be built")
+        return 2
+    print("  the witness no longer fails")
+    return 0
